@@ -106,6 +106,9 @@ def cases(ctx):
         for n in (256, 300, -1, 511, 2**32 + 1):
             for d in (0, 2, 4):
                 sdk.append({"kind": "sdk-rot-hw", "axis": axis, "n": n, "d": d, "expect": "out"})
+    for use in ("rot", "array-init", "loop"):
+        for outcome in (0, 1):
+            sdk.append({"kind": "sdk-resolved-future", "use": use, "outcome": outcome, "expect": "in"})
     for c in sdk:
         k += 1
         if ctx.mine(k):
@@ -174,6 +177,19 @@ def cases(ctx):
                 instrs[i][1] = codec.set_leaf(instrs[i][1], pos, v)
                 bad.append([i, list(pos)])
         yield {"kind": rng.choice(["program-direct", "program-text"]), "flavour": flav, "instrs": instrs, "bad": bad, "expect": expect}
+
+
+def _array_init_first(descr):
+    """Value stored into entry 0 of the first array by the init code (set Rv x; set Ri 0; store Rv @a[Ri])."""
+    regs = {}
+    for d in descr:
+        if d[0] == "set":
+            regs[tuple(d[1][0])] = d[1][1]
+        elif d[0] == "store":
+            idx = d[1][1][1]
+            if regs.get(tuple(idx)) == 0:
+                return regs.get(tuple(d[1][0]))
+    return None
 
 
 def _np_types_for(v):
@@ -391,6 +407,49 @@ def run_case(ctx, case):
             q = Qubit(conn)
             getattr(q, "rot_" + case["axis"])(n=_typed(case["n"], case.get("vtype")), d=_typed(case["d"], case.get("vtype")))
         sdk(prog, lambda descr, subs: any(d[0] == mn and d[1][1:] == [case["n"], case["d"]] for d in descr))
+    elif kind == "sdk-resolved-future":
+        # a measurement outcome that the host already knows (the handle is an int whose value lives in __int__) used as an operand
+        # of the next subroutine: what is encoded must be that value
+        from vf.harness.pipeline import Pipe
+        ctx.count("resolved_future_operands")
+        want = case["outcome"]
+        try:
+            p_ = Pipe(script=[want, 0, 0, 0], max_qubits=3)
+            with p_.conn as conn:
+                q = Qubit(conn)
+                if want:
+                    q.X()
+                m = q.measure()
+                conn.flush()
+                q2 = Qubit(conn)
+                if case["use"] == "rot":
+                    q2.rot_X(n=m, d=1)
+                elif case["use"] == "array-init":
+                    conn.new_array(2, init_values=[m, 7])
+                else:
+                    with conn.loop(m):
+                        q2.H()
+                conn.flush()
+                sub = conn.subroutines[-1]
+                descr = [codec.describe_instr(i) for i in sub.instructions]
+                q2.measure()
+        except Exception as e:
+            ctx.count("resolved_future_operand_refused")       # refusing a Future as a literal with an error is not a silent alteration
+            return ctx.case(case, True)
+        if case["use"] == "rot":
+            ok = any(d[0] == "rot_x" and d[1][1:] == [want, 1] for d in descr)
+        elif case["use"] == "array-init":
+            vals = [d[1][1] for d in descr if d[0] == "set" and d[1][0][0] == "R"]
+            ok = want in vals and 7 in vals and (want != 1 or vals.count(1) >= 1)
+            ok = ok and any(d[0] == "store" for d in descr) and _array_init_first(descr) == want
+        else:
+            stops = [d[1][1] for d in descr if d[0] == "set" and d[1][0][0] == "R"]
+            ok = want in stops[:2]        # set <counter> 0; set <scratch> <stop>
+        if ok:
+            ctx.count("in_range_twins_ok")
+        else:
+            ctx.fail(case, f"silently altered: a resolved measurement handle with value {want} used as {case['use']} operand was encoded as "
+                           f"{[d for d in descr if d[0] in ('rot_x', 'set', 'store')][:8]}")
     elif kind == "sdk-rot-hw":
         # hardware angle normalisation (global switch used for runs on real hardware) rescales n * pi / 2^d to sixteenths of pi
         # and may drop whole turns - but only of a numerator the instruction could hold in the first place
